@@ -162,3 +162,5 @@ func guard(f func()) (p string) {
 	f()
 	return ""
 }
+
+func sortStrings(xs []string) { sort.Strings(xs) }
